@@ -499,3 +499,38 @@ Section Select.
       auto using c_le_encode, c_le_decode, c_be_encode, c_be_decode.
   Qed.
 End Select.
+
+(* ---------- the stored pattern IS the value (what "same field values" means) ---------- *)
+
+Lemma store_value lf v :
+  cell_ty_ok (lf, v) ->
+  sval (leaf_cty lf) (leaf_pat lf v) =
+  match lk lf with KBool => (match v with VB true => 1 | _ => 0 end) | _ => zof v end.
+Proof.
+  intros Hty. pose proof (cell_ty_leaf_ok _ Hty) as Hok. cbn [fst] in Hok.
+  destruct (leaf_facts lf Hok) as (Hn & Hsz & _). cbv zeta in *.
+  unfold leaf_pat, leaf_cty, leaf_bits, cell_ty_ok in *. cbn [fst snd] in *.
+  destruct (lk lf) as [| |n|n|n] eqn:E; cbn [csz sval] in *.
+  - reflexivity.
+  - change byte_nbits with 8 in *. apply Z.mod_small. lia.
+  - destruct Hty as (_ & Hz). assert (2 ^ n <= 2 ^ storage_bits n) by (apply Z.pow_le_mono_r; lia).
+    apply Z.mod_small. lia.
+  - destruct Hty as (Hr & Hz). set (sb := storage_bits n) in *.
+    assert (Hh : 0 < 2 ^ (n - 1)) by (apply pow2_pos; lia).
+    assert (Hle : 2 ^ (n - 1) <= 2 ^ (sb - 1)) by (apply Z.pow_le_mono_r; lia).
+    assert (H2 : 2 ^ sb = 2 * 2 ^ (sb - 1)).
+    { replace sb with (1 + (sb - 1)) at 1 by lia. rewrite Z.pow_add_r by lia. reflexivity. }
+    destruct (Z.lt_ge_cases (zof v) 0) as [Hneg|Hpos].
+    + replace (zof v mod 2 ^ sb) with (zof v + 2 ^ sb).
+      2:{ symmetry. replace (zof v) with (zof v + 2 ^ sb + (-1) * 2 ^ sb) at 1 by ring.
+          rewrite Z.mod_add by lia. apply Z.mod_small. lia. }
+      replace (zof v + 2 ^ sb <? 2 ^ (sb - 1)) with false by lia. lia.
+    + rewrite Z.mod_small by lia. replace (zof v <? 2 ^ (sb - 1)) with true by lia. reflexivity.
+  - destruct Hty as (_ & Hz). assert (2 ^ n <= 2 ^ storage_bits n) by (apply Z.pow_le_mono_r; lia).
+    apply Z.mod_small. lia.
+Qed.
+
+Lemma store_cells_ok t v :
+  wf (norm t) = true -> opmode_ok (norm t) = true -> has_ty (norm t) v = true ->
+  Forall cell_ty_ok (map snd (cells (norm t) v)).
+Proof. intros Hw Ho Ht. apply (cells_good (norm t) v Hw Ho Ht). Qed.
